@@ -38,7 +38,18 @@ func c18Parse(c *eng.Ctx, r *eng.Report) {
 	}
 	pos := c.Pos(fn.Pos())
 	// float-free rewrite: exact by construction
-	if hf, _ := eng.HasFloat(fn); !hf && len(callsNamed(fn, "math/big.ParseFloat")) == 0 && len(callsNamed(fn, "(*math/big.Float).")) == 0 {
+	usesBigFloat := false
+	for _, b := range fn.Blocks {
+		for _, in := range b.Instrs {
+			if v, ok := in.(ssa.Value); ok && strings.Contains(v.Type().String(), "math/big.Float") {
+				usesBigFloat = true
+			}
+			if call, ok := in.(*ssa.Call); ok && strings.Contains(eng.CallName(&call.Call), "math/big.Float)") {
+				usesBigFloat = true
+			}
+		}
+	}
+	if hf, _ := eng.HasFloat(fn); !hf && !usesBigFloat && len(callsNamed(fn, "math/big.ParseFloat")) == 0 {
 		r.Pass("O1", "strToBigInt:float-free", pos, "no big.Float / float64 in the parser: exact by construction, obligations O1–O3 vanish")
 		return
 	}
@@ -301,6 +312,19 @@ func c18EthValue(c *eng.Ctx, r *eng.Report) {
 							}
 						}
 					}
+				}
+			}
+		}
+		// every value the parser accepts gets through: nothing about the TransferValue string itself decides
+		// whether the parse is reached (a length or format pre-filter rejects part of the uint256 range)
+		for _, call := range callsNamed(fn, "utility.StrToBigInt") {
+			if !strings.HasSuffix(eng.Desc(call.Call.Args[0]), ".TransferValue") {
+				continue
+			}
+			for _, cd := range eng.CondsAt(call) {
+				if strings.Contains(eng.Desc(cd.V), ".TransferValue") {
+					r.Fail("O6", "decodeContractData:no-prefilter", c.Pos(call.Pos()), "whether the transfer value is parsed depends on "+eng.Desc(cd.V)+": a pre-filter on the amount string (its length, its format) rejects amounts the 18-decimal parser accepts — e.g. a 78-digit cap excludes every value from 10^77 to 2^256−1, whose string has 79 characters with the decimal point — so those values do not reach the EVM")
+					ok = false
 				}
 			}
 		}
